@@ -6,7 +6,7 @@ import specgen
 from common import text
 
 EXTRA_COQ_FILES = ('GenFacts/SchemaOK.v', 'GenFacts/ConstantsOK.v')
-RULE = ('seeded random specifications over all 22 object types: attribute subsets by density 0/0.3/0.7/1, value multiplicities '
+RULE = ('[plus 12/120 write-edit-write histories through the public API, every file decoded] ' + 'seeded random specifications over all 22 object types: attribute subsets by density 0/0.3/0.7/1, value multiplicities '
         '0,1,2,3,5,127,128,200, nested lists, units (str/Unit member, AttrSetup/dict), named and unnamed sets, repeated names; '
         'every EFLR body tapped before segmentation is (a) parsed by the strict component reader, (b) compared with the model '
         'encoder applied to the Python-side attribute state. Distinct by (set type, number of objects, body length).')
@@ -85,6 +85,19 @@ def run(ctx):
         if k % 9 == 0:
             ctx.sample({'stream': 'K-attr', 'sets': [(s.set_type, s.set_name, s.n_items, len(b)) for s, b in nonempty][:12]})
     ctx.notes.append('specifications built: %d, written: %d' % (built, written))
+    # histories: write, edit the specification (values of other kinds, origin references, the header item), write again:
+    # every file of the history must decode under the grammar (K-api correspondence with the model on the way)
+    import apistream
+    rng2 = ctx.rng('rewrite')
+    for k in range(12 if ctx.tier == 'quick' else 120):
+        hist, _fresh = apistream.rewrite_history(rng2)
+        r = apistream.run_one(ctx, hist, 'K-api-rewrite')
+        ctx.count('K-api-rewrite', key=k)
+        for (step, data, vrl, ident) in r['files']:
+            d = apistream.decode(ctx, data, vrl, ident)
+            ctx.stat('K-api-rewrite', 'files_decoded')
+            if not d.ok:
+                ctx.violation('file-of-a-rewrite-history-rejected-by-the-strict-reader', {'program': apistream.strip_private(hist), 'write_step': step})
 
 
 def replay(ctx, data):
